@@ -66,9 +66,11 @@ def cases(rng, quick):
             for ops in ops_for(how, ty, cls, reg):
                 out.append(["reset", "case %s %s %s" % (how, ty, " ".join(ops))])
     for how in ELEM_HOWS:
-        for ty in ("Int", "Float", "String", "Probe", "Odd", "Tiny"):
+        for ty in ("Int", "Float", "String", "Probe", "Odd", "Tiny", "Half"):
             for ops in ops_for(how, ty, "data", False):
                 out.append(["reset", "case %s %s %s" % (how, ty, " ".join(ops))])
+    for ops in ops_for("stack", "Half", "stack", False):           # a stack object of the type with half an Alloc instance
+        out.append(["reset", "case stack Half %s" % " ".join(ops)])
     for how, ty in OTHER:
         cls = {"copy": "heap", "static": "static", "uitem": "heap", "it_range": "stack", "it_zip": "stack", "rtinst": "heap"}.get(how, "data")
         reg = how in ("copy", "uitem", "rtinst")
